@@ -1,8 +1,28 @@
-"""C09 - retained snapshots are immutable and time travel is stable (lookup / repointing part: contracts/snapshots.py)."""
+"""C09 - retained snapshots are immutable and time travel is stable.
+  BY-ID / BY-TS / REPOINT-CUR   lookup and repointing contracts over the snapshot forest (contracts/snapshots.py)
+  WRITE-ONCE                     every metadata-plane file a commit writes gets a name with a fresh uuid token (manifests, lists)
+  immutability of retained content = WRITE-ONCE + 'rollback deletes only own files' (DEL-OWN) + 'GC deletes only unreachable
+  files' (C05 DELETE-SAFE / REACH-ALL) + 'deletes rewrite, never edit, manifests' (DELETE-EXACT): units re-registered here."""
+from contracts import C05_gc as gc
+from contracts import commitpath as cp
 from contracts import snapshots as S
-from pyvc.runner import Unit, register
+from pyvc.runner import Unit, register, units_of
 
 P = "C09"
 META = dict(S.META)
+META["trusted"] = list(META["trusted"]) + [
+    "A-uuid: names with a uuid4 token are never reused; data files are write-once by the same argument (C16 DataFileWriter.open)",
+    "lemma IMMUT (meta-argument): no function overwrites or deletes a file reachable from a retained snapshot - writers only "
+    "create fresh names (WRITE-ONCE), rollback deletes only files of the failed transaction (DEL-OWN), the collector deletes only "
+    "files outside the reachable set of EVERY retained snapshot (C05/C06)"]
 for name, (harness, fns, replay) in S.UNITS_C09.items():
     register(Unit(P, name, harness, functions=fns, replay=replay))
+register(Unit(P, "REPOINT-CUR/delete_snapshot", S.h_delete_snapshot_wf, functions=[f"{S.SM}:SnapshotManager.delete_snapshot"], replay=S._replay_lookup))
+for k in ("manifest", "list"):
+    register(Unit(P, f"WRITE-ONCE/create_{k}", cp.h_create_manifest(k),
+                  functions=[f"{cp.FMOD}:FileManager.create_manifest_file" if k == "manifest" else f"{cp.FMOD}:FileManager.create_manifest_list_file"], replay=S._replay_carry))
+register(Unit(P, "DEL-OWN/_rollback", cp.h_rollback(True), functions=[f"{cp.TX}:Transaction._rollback"], replay=cp._replay_tx))
+register(Unit(P, "DELETE-EXACT/_commit_file_ops", cp.h_commit_file_ops("both"), functions=[f"{cp.TX}:Transaction._commit_file_ops"], replay=S._replay_carry))
+for u in list(units_of("C05")):
+    if u.name.startswith(("GC-PREFIX", "COLLECT", "NORM-AGREE/relative", "NORM-AGREE/leading")):
+        register(Unit(P, "GC/" + u.name, u.harness, functions=u.functions, replay=u.replay, reg_factory=u.reg_factory or gc.registry, z3_timeout_ms=u.z3_timeout_ms))
